@@ -58,8 +58,19 @@ class ColSet:
         self.items = items
 
 
+class UnsoundBound(Exception):
+    """an expression that is not an enclosing bound for every choice of parameter rows"""
+
+
 class BoxEval(SymEval):
     def ev(self, e):
+        if isinstance(e, ast.BinOp) and isinstance(e.op, (ast.Add, ast.Sub)):
+            try:
+                a, b = self.ev(e.left), self.ev(e.right)
+            except NotSym:
+                a = b = None
+            if isinstance(a, Red) or isinstance(b, Red):
+                return self._bound_arith(a, b, isinstance(e.op, ast.Add), e)
         if isinstance(e, ast.Call):
             fn = e.func
             ch = attr_chain(fn) or ""
@@ -108,6 +119,35 @@ class BoxEval(SymEval):
                 raise NotSym("selection on stacked rows")
         return super().ev(e)
 
+    def _bound_arith(self, a, b, add: bool, e):
+        """min/max of rows combined with +/-: min(A) + min(B) and min(A) - max(B) are lower bounds of A ± B for every row pairing,
+        max(A) + max(B) and max(A) - min(B) upper bounds; the mixed forms are not bounds when the rows differ"""
+        def items(v):
+            if isinstance(v, Red):
+                return sorted(v.items), v.kind
+            if isinstance(v, RF):
+                return [self._remember(v)], None
+            raise NotSym(f"bound arithmetic on {type(v).__name__}")
+        (ia, ka), (ib, kb) = items(a), items(b)
+        kind = ka or (kb if add else {"min": "max", "max": "min"}[kb])
+        need_b = kind if add else {"min": "max", "max": "min"}[kind]
+        if ka is not None and kb is not None and kb != need_b:
+            raise UnsoundBound(f"`{dump(e)[:70]}` combines {ka}(.) {'+' if add else '-'} {kb}(.): for parameter rows with different values this is not a {'lower' if kind == 'min' else 'upper'} bound of the row-wise {'sum' if add else 'difference'}")
+        return Red(kind, [self._combine(x, y, add) for x in ia for y in ib])
+
+    def _combine(self, x: str, y: str, add: bool) -> str:
+        # Red items are reprs of RFs; the RFs themselves are remembered by _remember
+        reg = self.__dict__.setdefault("_rf", {})
+        if x not in reg or y not in reg:
+            raise NotSym("bound arithmetic on an unknown item")
+        v = reg[x] + reg[y] if add else reg[x] - reg[y]
+        reg[repr(v)] = v
+        return repr(v)
+
+    def _remember(self, v: RF) -> str:
+        self.__dict__.setdefault("_rf", {})[repr(v)] = v
+        return repr(v)
+
     def _vector_of(self, e):
         return [self.ev(x) for x in e.args[0].elts]
 
@@ -121,11 +161,11 @@ class BoxEval(SymEval):
                 raise NotSym(f"{kind} of a {v.kind}")
             return v
         if isinstance(v, RF):
-            return Red(kind, [repr(v)])
+            return Red(kind, [self._remember(v)])
         if isinstance(v, ColSet):
-            return Red(kind, [repr(x) for x in v.items])
+            return Red(kind, [self._remember(x) for x in v.items])
         if isinstance(v, Vec):
-            return Red(kind, [repr(x) for x in v.c])
+            return Red(kind, [self._remember(x) for x in v.c])
         raise NotSym(f"{kind} of {type(v).__name__}")
 
     def _merge(self, kind, reds: List[Red]) -> Red:
@@ -244,6 +284,9 @@ def r1_r2_primitives(repo: Repo, rep):
                     v = ev.ev(e)
                     if isinstance(v, RF):
                         v = Red("min" if side == "lo" else "max", [repr(v)])
+                except UnsoundBound as err:
+                    rep.violation(R1, fi.site(p.ret_node), fi.fq, f"axis {k} {side} entry encloses every parameter row", str(err), f"axis{k} {side} unsound bound arithmetic")
+                    continue
                 except (NotSym, NotPoly) as err:
                     rep.undecided(R1, fi.site(p.ret_node), fi.fq, f"axis {k} {side} entry evaluable", str(err))
                     continue
@@ -447,11 +490,27 @@ def r5_consumers(repo: Repo, rep):
         raise AnalysisError("LHSSampler._create_lhs_in_bounding_box vanished")
     rep.saw(fi)
     bb = fi.params[1]
-    lins = [c for c in ast.walk(fi.node) if isinstance(c, ast.Call) and attr_chain(c.func) == "torch.linspace"]
-    axl = [dump(l.target) for l in ast.walk(fi.node) if isinstance(l, ast.For) and "range(self.domain.dim)" in dump(l.iter).replace(" ", "")]
-    ax = axl[0] if axl else "i"
-    good = len(lins) == 1 and len(lins[0].args) >= 2 and dump(lins[0].args[0]).replace(" ", "") == f"{bb}[2*{ax}]" and dump(lins[0].args[1]).replace(" ", "") == f"{bb}[2*{ax}+1]"
-    rep.check(R, good, fi.site(), fi.fq, "strata of axis i span [box[2i], box[2i+1]]", dump(lins[0])[:120] if lins else "no linspace", dump(lins[0])[:120] if lins else "")
+    from .c11 import lhs_axis_formula
+    from ..absdom.symtensor import NotSym
+    n_lhs = 0
+    for p in paths(fi.node):
+        if p.ret is RAISE:
+            continue
+        stores = [e for e in p.events if e.kind == "store"]
+        axis = [k for k, it in p.loopvars.items() if "range(self.domain.dim)" in dump(it).replace(" ", "")]
+        if len(stores) != 1 or not axis:
+            rep.undecided(R, fi.site(), fi.fq, "one column store per axis", f"{len(stores)} stores, axis loop {axis}")
+            continue
+        n_lhs += 1
+        v = stores[0].value
+        base = v.value if isinstance(v, ast.Subscript) and isinstance(v.slice, ast.Call) and attr_chain(v.slice.func) == "torch.randperm" else v
+        try:
+            val, want = lhs_axis_formula(p, base, bb, axis[0])
+            rep.check(R, want is not None and val == want, fi.site(stores[0].node), fi.fq, "strata of axis i span [box[2i], box[2i+1]]: point = lo + (hi - lo)/n * (i + U)", f"{val!r}", f"{val!r}")
+        except (NotSym, NotPoly) as err:
+            rep.undecided(R, fi.site(stores[0].node), fi.fq, "stratum formula evaluable", str(err))
+    if n_lhs == 0:
+        rep.undecided(R, fi.site(), fi.fq, "a path storing the axis points", "none")
     sp = lhs.methods.get("_sample_points")
     if sp is not None:
         rep.saw(sp)
